@@ -297,7 +297,9 @@ def cmp_sides(cond):
     return (op, l, r)
 
 
-def check_r4(ctx, byname):
+def check_r4(ctx, byname, strict=False):
+    """strict: growth to exactly the maximum must still be allowed (C09: a fitting statement is not refused); C02 itself only
+    requires that nothing beyond the maximum is allocated"""
     # ---- growth
     m = byname["_handle_full_queue"]
     g = m.g
@@ -330,7 +332,7 @@ def check_r4(ctx, byname):
         npos = g.positions(nw)
         spos = [p for s in stores for p in g.positions(s)]
         over_reaches_alloc = g.exists_path([tnode], npos + spos, avoid_edges=[(bid, "F")])
-        ctx.ob("C02.R4a", "_handle_full_queue:no-alloc-beyond-max", not over_reaches_alloc and op == "<",
+        ctx.ob("C02.R4a", "_handle_full_queue:no-alloc-beyond-max", not over_reaches_alloc and (op == "<" or not strict),
                "when the required capacity exceeds _max_capacity no path allocates or publishes a node (guard: max %s capacity)" % op,
                loc=cond["loc"], fn=m)
         ok = all(g.dominates([tnode], p) for p in npos) and not g.exists_path([g.entry_node], npos, avoid_edges=[(bid, "F")])
